@@ -21,6 +21,7 @@ import (
 //
 //	S <idx>            case idx starts
 //	V <idx> <json>     case idx violates (json: findings + observation)
+//	K <idx>            case idx skipped: its class has killed the worker process crashLimit times already
 //	F <next>           worker leaves to be restarted at next (fresh address space after a huge allocation)
 //	D                  shard finished
 //
@@ -116,31 +117,37 @@ func childMain() {
 		os.Exit(2)
 	}
 	total := sp.total()
-	se, _ := strconv.Atoi(common.Arg("sample-every"))
-	if se <= 0 {
-		se = total + 1
+	skip := map[string]bool{}
+	for _, k := range strings.Split(common.Arg("skip"), ",") {
+		if k != "" {
+			skip[k] = true
+		}
 	}
-	se2 := sp.nA2/4 + 1
 	buf := make([]byte, 0, 32)
 	alloc0, n := totalAlloc(), 0
 	for i := from; i < total; i += of {
+		bk, bi := sp.blockOf(i)
+		c := sp.blocks[bk].at(bi)
+		if len(skip) > 0 && skip[crashClass(c)] {
+			os.Stdout.WriteString("K " + strconv.Itoa(i) + "\n")
+			continue
+		}
 		buf = append(buf[:0], 'S', ' ')
 		buf = strconv.AppendInt(buf, int64(i), 10)
 		buf = append(buf, '\n')
 		os.Stdout.Write(buf)
 		curStart.Store(time.Now().Unix())
 		curIdx.Store(int64(i))
-		c := sp.at(i)
 		r := evalCase(c)
 		curIdx.Store(-1)
-		if c.Alphabet == "A2-large" {
-			runtime.GC() // these come last and leave megabytes of garbage each; nothing huge is allocated after them
+		if sp.blocks[bk].gcAfter {
+			runtime.GC() // these leave megabytes of garbage each
 		}
 		if len(r.Findings) > 0 {
 			b, _ := json.Marshal(r)
 			os.Stdout.WriteString("V " + strconv.Itoa(i) + " " + string(b) + "\n")
 		}
-		if i%se == 0 || (i >= sp.nA1 && (i-sp.nA1)%se2 == 0) {
+		if bi%(sp.blocks[bk].n/3+1) == 0 { // three evenly spaced samples of every block
 			b, _ := json.Marshal(r)
 			os.Stdout.WriteString("O " + strconv.Itoa(i) + " " + string(b) + "\n")
 		}
